@@ -22,7 +22,7 @@ RULE = ("fault placements: (site kind: raising watcher on set / on batch flush /
         "k-th key of update incl. an Event key; rejected constructor keyword; raising body of batch, discard, edit_constant, "
         "update-context) x position x nesting depth 0-2 x caught-inside-a-surrounding-batch yes/no are enumerated completely "
         "for a fixed 4-watcher configuration; around them Hypothesis generates watcher configurations, surrounding programs "
-        "and sequences of up to three faults. Oracle = the same probe (fresh watchers, same-value set, changing set, batch, "
+        "(callbacks may raise a custom exception, ValueError, TypeError or KeyError; watchers of Parameter attributes and assignments to them are included; after a fault caught inside an open edit_constant block a constant must still be assignable there) and sequences of up to three faults. Oracle = the same probe (fresh watchers, same-value set, changing set, batch, "
         "trigger, Event set, update, constant flags) on the faulted object and on a freshly built twin, traces compared; plus "
         "silence inside a surrounding batch after a caught fault. Non-trivial = the fault strikes while an event is queued, "
         "or inside an enclosing context, or during trigger, or with an Event key among the update keys; distinct = case hash.")
@@ -33,7 +33,10 @@ ASSUMPTIONS = [
 ]
 SIZES = {"quick": 900, "thorough": 8000}
 EXHAUSTIVE_NOTE = ("one fault x {site kind} x {position} x {nesting: none, batch, batch>batch, discard, updctx, batch>discard} x "
-                   "{caught inside the surrounding batch or propagated} under a fixed 4-watcher configuration")
+                   "{caught inside the surrounding batch or propagated} under a fixed 4-watcher configuration; plus {exception class: "
+                   "custom, ValueError, TypeError, KeyError} x {direct set, direct Event set with an immediate or a queued watcher, "
+                   "Parameter-attribute set whose earlier queued watcher assigned} x {no context, batch caught, batch propagated} "
+                   "under a 7-watcher configuration")
 
 PN = ["a", "b", "c", "ev"]
 
@@ -60,6 +63,7 @@ def _leaf(fam):
         st.tuples(st.just("trigger"), t, st.lists(st.integers(0, 3), min_size=1, max_size=2, unique=True)),
         st.tuples(st.just("event"), t),
         st.tuples(st.just("ctor"), st.booleans()),
+        st.tuples(st.just("slot"), t, st.sampled_from(["bounds", "doc"]), st.integers(0, 3)),
         st.tuples(st.just("bad_trigger"), t, n),
         st.tuples(st.just("unknown_trigger"), t, n),
     ).map(list)
@@ -84,15 +88,19 @@ def _tree(fam):
 @st.composite
 def _case(draw):
     fam = draw(st.integers(0, 4))
-    ws = draw(st.lists(watcher_spec(allow_slot=False, allow_class=False, fam=fam), min_size=1, max_size=5))
+    ws = draw(st.lists(watcher_spec(allow_slot=True, allow_class=False, fam=fam), min_size=1, max_size=5))
     for w in ws:
         w["script"] = []
-        if draw(st.integers(0, 3)) == 0:
+        if w["what"] != "value":
+            w["names"] = [4]                    # a watcher of a Parameter attribute of `num` (bounds / doc)
+        elif draw(st.integers(0, 3)) == 0:
             w["names"] = sorted(set(w["names"]) | {3})
+        # the class of the exception a failing callback raises: param itself raises ValueError / TypeError for rejected values
+        w["fault_exc"] = draw(st.sampled_from(["Fault", "Fault", "ValueError", "TypeError", "KeyError"]))
     wfaults = draw(st.lists(st.tuples(st.integers(0, len(ws) - 1), st.integers(1, 3)), max_size=3))
     for wid, _k in wfaults:
         w = ws[wid]
-        lo = max(i for i in w["names"] if i <= 2) + 1 if any(i <= 2 for i in w["names"]) else 3
+        lo = max(i for i in w["names"] if i <= 2) + 1 if any(i <= 2 for i in w["names"]) else (0 if w["what"] != "value" else 3)
         if lo <= 2 and draw(st.booleans()):
             # a faulting callback may do its work (assign another parameter) before it fails
             w["script"] = [[draw(st.integers(lo, 2)), draw(val_strategy(fam))]]
@@ -148,6 +156,24 @@ def enumerate_cases(tier):
     for (name, nodes, wf), nesting, catch in itertools.product(sites, nestings, (False, True)):
         prog = [["set", 0, 0, 0]] + [wrap(n, nesting, catch) for n in nodes] + [["set", 0, 2, 1]]
         yield {"fam": 0, "watchers": _FIXED_WS, "wfaults": wf, "prog": prog, "site": name}
+    # the class of the exception the callback raises (param's own rejections are ValueError / TypeError), on a direct
+    # assignment, a direct Event set and a Parameter-attribute set, with a watcher of the Event and one of num.bounds
+    ws_ev = _FIXED_WS + [
+        {"target": 0, "names": [3], "what": "value", "onlychanged": False, "queued": False, "precedence": 1, "mode": "args", "script": []},
+        {"target": 0, "names": [4], "what": "bounds", "onlychanged": False, "queued": True, "precedence": 0, "mode": "args",
+         "script": [[1, 2]], "fault_after_script": False},
+        {"target": 0, "names": [4], "what": "bounds", "onlychanged": False, "queued": False, "precedence": 0, "mode": "args", "script": []},
+    ]
+    for exc in ("Fault", "ValueError", "TypeError", "KeyError"):
+        ws = [dict(w, fault_exc=exc) for w in ws_ev]
+        for k in (1, 2):
+            for name, nodes, wf in (("watcher_on_set", [["set", 0, 0, 1], ["set", 0, 0, 4]], [[0, k]]),
+                                    ("watcher_on_event_set", [["event", 0], ["event", 0]], [[4, k]]),
+                                    ("queued_watcher_on_event_set", [["event", 0], ["event", 0]], [[1, k]]),
+                                    ("slot_watcher_after_queued_assigning_one", [["slot", 0, "bounds", 1], ["slot", 0, "bounds", 2]], [[6, k]])):
+                for nesting, catch in (([], False), (["batch"], True), (["batch"], False)):
+                    prog = [["set", 0, 0, 0]] + [wrap(n, nesting, catch) for n in nodes] + [["set", 0, 2, 1]]
+                    yield {"fam": 0, "watchers": ws, "wfaults": wf, "prog": prog, "site": name + ":" + exc}
 
 
 # ---------------------------------------------------------------------------
@@ -172,6 +198,9 @@ def _twin_of(world, specs):
         vals = {n: getattr(src, n) for n in NAMES}
         vals["num"] = src.num
         tw.targets[i] = tw.W(**vals)
+        if "num" in src._param__private.params:       # the object has its own Parameter `num`: same attribute values
+            tw.targets[i].param.num.bounds = src.param.num.bounds
+            tw.targets[i].param.num.doc = src.param.num.doc
     tw.o1, tw.o2 = tw.targets[0], tw.targets[1]
     for wid in range(len(specs)):
         tw.register(wid)
@@ -384,6 +413,14 @@ def execute(case):
             except Fault:
                 note_fault("watcher_on_event")
                 raise
+        elif kind == "slot":
+            t = node[1]
+            newv = (0, 10 + node[3]) if node[2] == "bounds" else f"d{node[3]}"
+            try:
+                setattr(world.targets[t].param.num, node[2], newv)
+            except Fault:
+                note_fault("watcher_on_slot_set")
+                raise
         elif kind == "ctor":
             if node[1]:
                 try:
@@ -430,6 +467,15 @@ def execute(case):
                                     for tt in (0, 1):
                                         if depth[tt]:
                                             inbatch_probe(tt)
+                                    if kind == "editconst":
+                                        # the fault was caught inside this still open edit_constant block: constants stay editable
+                                        try:
+                                            obj.name = f"renamed{next(counter)}"
+                                        except TypeError as e:
+                                            res.fail("C05.edit_constant_closed_by_inner_fault",
+                                                     f"after a fault caught inside an open edit_constant block on t{t}, a constant "
+                                                     f"can no longer be assigned in that block: {e}")
+                                        state["labels"].add("constant_probe_inside_open_edit_constant")
                             else:
                                 run(ch)
                         if raise_at is not None and raise_at >= len(kids):
@@ -479,7 +525,7 @@ def execute(case):
                     continue
                 _a, t_, n_, _v = e
                 for wid, sp in enumerate(specs):
-                    if sp["target"] != t_ or sp["onlychanged"] or n_ not in [PN[i] for i in sp["names"]]:
+                    if sp["target"] != t_ or sp["onlychanged"] or sp["what"] != "value" or n_ not in [PN[i] for i in sp["names"]]:
                         continue
                     if not any(x[0] == "enter" and x[1] == wid and any(r[0] == n_ for r in x[2]) for x in world.trace[pos:]):
                         res.fail("C05.applied_change_not_announced", f"{tag}: the change of t{t_}.{n_} was applied but never "
